@@ -93,6 +93,15 @@ func (s c05Step) String() string {
 	return fmt.Sprintf("%s(%q)", s.op, s.p1)
 }
 
+// c05Atime: the access time that goes with a modification time in a Chtimes step (five seconds later; the epoch and
+// one second after it get the epoch itself, so that both times of one call can be 0)
+func c05Atime(t int64) int64 {
+	if t <= 1 {
+		return 0
+	}
+	return t + 5
+}
+
 func vfPick64(r *vfRand, l []int64) int64 { return l[r.Intn(len(l))] }
 
 func vfPick2(r *vfRand, l [][2]string) (string, string) {
@@ -205,7 +214,7 @@ func c05Gen(r *vfRand, n int, unpriv, relative bool) []c05Step {
 			s.t = 1400000000 + int64(r.Intn(100000))
 			if r.Intn(4) == 0 {
 				// times on the far side of 2038 and near the end of the 32-bit range, and near the epoch
-				s.t = vfPick64(r, []int64{1 << 31, 1<<31 + 12345, 3000000000 + int64(r.Intn(1000)), 1<<32 - 10, 1, 86400})
+				s.t = vfPick64(r, []int64{1 << 31, 1<<31 + 12345, 3000000000 + int64(r.Intn(1000)), 1<<32 - 10, 1, 86400, 0, 0})
 			}
 		case "Symlink":
 			// target text: relative name, or a path inside the tree, or dangling
@@ -347,7 +356,7 @@ func c05Ref(s c05Side, st c05Step) (string, error) {
 	case "Chmod":
 		return "", os.Chmod(p1, st.mode)
 	case "Chtimes":
-		return "", os.Chtimes(p1, time.Unix(st.t+5, 0), time.Unix(st.t, 0))
+		return "", os.Chtimes(p1, time.Unix(c05Atime(st.t), 0), time.Unix(st.t, 0))
 	case "Truncate":
 		return "", os.Truncate(p1, st.size)
 	case "SetSizeAndMode":
@@ -528,7 +537,7 @@ func c05Sut(c *Client, s c05Side, st c05Step) (string, error) {
 	case "Chmod":
 		return "", c.Chmod(p1, st.mode)
 	case "Chtimes":
-		return "", c.Chtimes(p1, time.Unix(st.t+5, 0), time.Unix(st.t, 0))
+		return "", c.Chtimes(p1, time.Unix(c05Atime(st.t), 0), time.Unix(st.t, 0))
 	case "Truncate":
 		return "", c.Truncate(p1, st.size)
 	case "SetSizeAndMode":
@@ -615,7 +624,10 @@ func c05Snap(s c05Side) string {
 }
 
 func c05Run(u *vfUnit) {
-	syscallUmask()
+	// the process umask is the server's and the reference's alike; it varies over masks that contain 022 (with a mask
+	// that lets group or other write through, Create's documented 0666-before-umask and the server's 0644 differ)
+	syscall.Umask([]int{0o022, 0o022, 0o027, 0o077}[(u.Index/4)%4])
+	defer syscallUmask()
 	r := u.Rng
 	relative := u.Index%2 == 1
 	base := u.TempDir()
